@@ -284,6 +284,10 @@ class Ctx:
         self.notes = {}
         self.known = load_known()
         self.partial = None
+        os.makedirs(REPLAYS, exist_ok=True)
+        for f in os.listdir(REPLAYS):
+            if f.startswith(pid + "-"):
+                os.unlink(os.path.join(REPLAYS, f))
 
     @property
     def quick(self):
@@ -371,3 +375,60 @@ def standard_theorems(ctx, module, theorems):
             bad.append((t, r))
     ctx.notes["print_assumptions"] = {t: res.get(t, "missing") for t in theorems}
     return bad
+
+
+SCRIPT_HEADER = "From ZL Require Import Base.Bytes Base.Corr Framework.Core Framework.Registry Framework.Script.\nOpen Scope Z_scope.\n"
+
+
+def corr_stream(ctx, name, cases, header, check_fn, model, shard=400, sample_from=None):
+    """Evaluate one stream of correspondence cases in Coq; register obligation, evals, violations."""
+    if not cases:
+        ctx.oblige("correspondence %s (0 cases!)" % name, False, "harness produced no cases")
+        ctx.violation("corr-empty:" + name, "harness produced no cases for stream " + name,
+                      {"theorem_or_correspondence": "correspondence " + model}, found_input=False)
+        return []
+    okf, nf, failing, logs = run_cases(ctx.pid, name, header, [c["coq"] for c in cases], check_fn, shard=shard)
+    good = (okf == nf and not failing)
+    ctx.oblige("correspondence %s: %s ~ implementation (%d cases, %d files)" % (name, model, len(cases), nf), good,
+               (str(logs)[:1500] + " failing=" + str(failing[:10])))
+    tags = {}
+    for c in cases:
+        tags[c.get("tag", "")] = tags.get(c.get("tag", ""), 0) + 1
+    ctx.add_eval(len(cases), distinct=len(tags), traces=len(cases))
+    ctx.notes.setdefault("input_distribution", {})[name] = dict(sorted(tags.items(), key=lambda kv: -kv[1])[:40])
+    for c in (cases[len(cases) // 3:len(cases) // 3 + 1] + cases[-1:]):
+        ctx.sample({"stream": name, "case": c.get("desc")})
+    if okf != nf:
+        ctx.violation("corr-broken:" + name, "correspondence file for %s did not compile/evaluate: %s" % (name, str(logs)[:1200]),
+                      {"theorem_or_correspondence": "correspondence " + model, "logs": str(logs)[:4000]}, found_input=False)
+    return [cases[i] for i in failing if i < len(cases)]
+
+
+def split_violations(d, pid):
+    """violations emitted by harness monitors are keyed '<PID>|<key>'"""
+    out = []
+    for v in d.get("violations") or []:
+        k = v["key"]
+        if "|" in k:
+            p, kk = k.split("|", 1)
+            if p != pid:
+                continue
+            v = dict(v, key=kk)
+        out.append(v)
+    return out
+
+
+def report_monitor_violations(ctx, d):
+    vs = split_violations(d, ctx.pid)
+    for v in vs:
+        ctx.violation(v["key"], v["what"], {"input": v.get("input"), "expected": v.get("expected"), "observed": v.get("observed")})
+    return vs
+
+
+def report_disagreements(ctx, name, failing_cases, model, found_keys):
+    """model/implementation disagreement with no direct property failure found by the monitors"""
+    for c in failing_cases[:5]:
+        ctx.violation("corr:%s" % name,
+                      "model %s and the implementation disagree (stream %s); no direct failure of the property found on this case" % (model, name),
+                      {"theorem_or_correspondence": "correspondence " + model, "case": c.get("desc"), "coq_case": c.get("coq")[:2000]},
+                      found_input=False)
